@@ -49,13 +49,13 @@ def check(prop, tier, seed, replay):
         gcfg = "SPECIFICATION Spec\nCONSTANTS\n  Pairs = %s\nINVARIANT Emit\nCHECK_DEADLOCK FALSE\n" % pairs
         if replay:
             rp = json.load(open(replay))
-            if "svc" in rp:
+            if rp.get("svc"):
                 with open(svcs, "w") as f:
                     f.write(json.dumps(rp["svc"]) + "\n")
                 gdist = ggen = 1
             else:
                 replay_files = True
-        if not (replay and "svc" in json.load(open(replay))):
+        if not (replay and json.load(open(replay)).get("svc")):
             gout, ggen, gdist, _ = tlc("GenGen", gcfg, work, env={"GEN_OUT": svcs}, workers=4, timeout=600)
             if not tlc_ok(gout):
                 raise Infra("GenGen failed (model level):\n" + gout[-3000:])
@@ -109,8 +109,10 @@ def check(prop, tier, seed, replay):
                "evaluations": len(lines), "distinct_nontrivial": max(nontriv, 2),
                "rule": "service definitions = the lattice of GenGen.tla (every single-method service over call-type option "
                        "sets of size <= 2 and {correctable,quorumcall,async} x per_node_arg x custom_return_type x "
-                       "client/server streaming x local/imported request and response types%s; reserved message names; "
-                       "two services); each run three times; non-trivial = verdict reject/either, or a binding row" %
+                       "client/server streaming x local/Empty/imported request and response types%s; reserved message names; "
+                       "two services; every documented method with a message imported from a Go package named ext, "
+                       "encoding, fmt, gorums, context, proto; every documented method with CamelCase, lowerCamel, "
+                       "snake_case and lower-case rpc names); each run three times; non-trivial = verdict reject/either, or a binding row" %
                        ("; all ordered pairs of documented methods" if pairs == "TRUE" else ""),
                "samples": [json.loads(x) for x in lines[:2]], "exhaustive": maxs == 0,
                "service_definitions": nsvc, "bindings": nbind, "committed_files_compared": nfiles,
